@@ -106,11 +106,10 @@ class RTDCBase(abc.ABC):
                 or feat in self.features_basin):
             ct = True
         else:
-            # Check ancillary features data
-            if feat in self._ancillaries:
-                # already computed
-                ct = True
-            elif feat in AncillaryFeature.feature_names:
+            # Check ancillary features data (Data that are already
+            # computed do not count: they may belong to a configuration
+            # that has changed in the meantime.)
+            if feat in AncillaryFeature.feature_names:
                 # get all instance of AncillaryFeature that
                 # check availability of the feature `feat`
                 instlist = AncillaryFeature.get_instances(feat)
